@@ -258,6 +258,10 @@ def fam_views(cfg, tier, rng):
             pres += [["withcap 0 %s %d" % (cfg["be"], n + x)] + ["push e 0 w"] * n for x in (0, 1, 3)]
         for pre in pres:
             out.append(pre + ["views 0", "dropvec 0"])
+            if resizable(cfg["be"]):
+                # the (dangling) storage pointer after the capacity went back to zero
+                out.append(pre + ["clear e 0", "shrink_to_fit 0", "views 0", "push e 0 w", "views 0", "dropvec 0"])
+                out.append(pre + ["clear e 0", "shrink_to 0 0", "views 0", "dropvec 0"])
         cap = fixed_cap(cfg["be"], cfg["sz"])
         for k in range(0, 4):
             if cap is not None and n + k > cap:
@@ -549,7 +553,107 @@ def fam_lazy(cfg, tier, rng):
             out.append(pre + ["splice e 0 u u Fdown drop lz:1 %d - %d" % (cnt, cnt)] + post)
     return out
 
+def fam_types(cfg, tier, rng):
+    """C04: wrong runtime types at every checked entry point; downcasts and reports."""
+    L = 3 if tier == "quick" else 4
+    out = []
+    other_len = max_len(cfg, 2)
+    for n in range(0, max_len(cfg, L) + 1):
+        pre = prefix(cfg, [n, other_len])
+        post = usable_after(cfg, [0, 1])
+        ops = []
+        for i in range(0, n + 2):
+            ops.append("probe_types 0 %d" % i)
+            ops += ["insert e 0 %d wrong:2" % i, "insert e 0 %d boxwrong:2" % i]
+            ops += ["down_wrong 0 rm %d" % i, "down_wrong 0 srm %d" % i, "swap_wrong 0 %d" % i]
+        ops += ["push e 0 wrong:2", "push e 0 boxwrong:2", "push e 0 wrong:3", "down_wrong 0 pop 0"]
+        for s in range(0, n + 1):
+            for e in range(s, n + 1):
+                for rn in (1, 2, 3):
+                    for j in range(0, rn):
+                        ops.append("splice e 0 i%d x%d - drop box %d %d %d" % (s, e, rn, j, rn))
+                        if e > s:
+                            ops.append("splice e 0 i%d x%d Fdown drop box %d %d %d" % (s, e, rn, j, rn))
+        for op in ops:
+            out.append(pre + [op] + post)
+    return out
+
+def fam_handles(cfg, tier, rng):
+    """C13: every index through every handle / view kind; write through one kind, read through
+    all others; swap between handle kinds."""
+    L = 3 if tier == "quick" else 4
+    out = []
+    other_len = max_len(cfg, 2)
+    reads = list(range(0, 8))
+    writes = list(range(0, 11))
+    for n in range(0, max_len(cfg, L) + 1):
+        pre = prefix(cfg, [n, other_len])
+        post = ["iter ref 0 " + "F" * (n + 1), "dropvec 0", "dropvec 1"]
+        for i in range(0, n + 2):
+            out.append(pre + ["read %d 0 %d" % (hk, i) for hk in reads] + ["get e 0 %d" % i, "get t 0 %d" % i] + post)
+            for w in writes:
+                out.append(pre + ["write %d 0 %d" % (w, i)] + ["read %d 0 %d" % (hk, j) for hk in reads for j in range(0, n)] + post)
+            for j in range(0, other_len + 1):
+                for pr in (0, 1, 2):
+                    out.append(pre + ["swap %d 0 %d 1 %d" % (pr, i, j)] + ["read %d 0 %d" % (hk, k) for hk in (0, 4) for k in range(0, n)]
+                               + ["read 3 1 %d" % k for k in range(0, other_len)] + post)
+    return out
+
+def fam_parts(cfg, tier, rng):
+    """C17: raw parts round trips in every small state, repeated and interleaved with every
+    single operation."""
+    if cfg["be"] not in ("heap", "empty"):
+        return []
+    L = 3 if tier == "quick" else 5
+    out = []
+    single = ["push e 0 w", "insert e 0 0 box", "pop e 0 drop", "remove e 0 0 down", "swap_remove e 0 0 drop", "clear e 0",
+              "drain e 0 u u Fdown drop", "splice e 0 u u - drop w 1 - 1", "views 0", "iter ref 0 FF"]
+    if cfg["be"] == "heap":
+        single += ["reserve 0 3", "shrink_to_fit 0", "reserve_exact 0 1"]
+    if cloneable(cfg):
+        single += ["clone 0 1", "clone_empty 0 1"]
+    for n in range(0, max_len(cfg, L) + 1):
+        pres = [prefix(cfg, [n])]
+        if cfg["be"] == "heap":
+            pres.append(["withcap 0 heap %d" % (n + 2)] + ["push e 0 w"] * n)
+            pres.append(["withcap 0 heap %d" % (n + 1)] + ["push e 0 w"] * n + ["clear e 0"])
+        for pre in pres:
+            for mode in (0, 1, 2):
+                out.append(pre + ["parts 0 %d" % mode, "iter ref 0 " + "F" * (n + 1), "dropvec 0"])
+                for op in single:
+                    if op.startswith("clone"):
+                        out.append(pre + ["parts 0 %d" % mode, op, "parts 0 %d" % mode, "parts 1 %d" % mode, "push e 1 w",
+                                          "iter ref 0 FFFF", "iter ref 1 FFFF", "dropvec 1", "dropvec 0"])
+                    else:
+                        out.append(pre + ["parts 0 %d" % mode, op, "parts 0 %d" % mode, op, "iter ref 0 FFFF", "dropvec 0"])
+    return out
+
+def fam_iter_clone(cfg, tier, rng):
+    """C14: clones of shared iterators advance independently of the original."""
+    L = 3 if tier == "quick" else 4
+    out = []
+    for n in range(0, max_len(cfg, L) + 1):
+        pre = prefix(cfg, [n, 0])
+        for l1 in range(0, n + 2):
+            for p1 in itertools.product("FB", repeat=l1):
+                for l2 in range(0, min(n, 2) + 2):
+                    for p2 in itertools.product("FB", repeat=l2):
+                        for k in ("ref", "mut", "tref"):
+                            out.append(pre + ["iter_clone %s 0 %s %s" % (k, "".join(p1) or "-", "".join(p2) or "-")])
+    return out
+
+def fam_placement(cfg, tier, rng):
+    """C12: storage pointer alignment for every admissible placement of the vector object."""
+    if cfg["be"] == "reloc":
+        return []
+    return [["placement"]]
+
 FAMILIES = {
+    "types": fam_types,
+    "handles": fam_handles,
+    "parts": fam_parts,
+    "iter_clone": fam_iter_clone,
+    "placement": fam_placement,
     "fuse": fam_fuse,
     "liar": fam_liar,
     "forget": fam_forget,
